@@ -92,6 +92,33 @@ RAW = [
 ]
 
 
+def failing_destructors():
+    """a runtime error raised inside a user destructor, for every way an object can die"""
+    faults = {"modulo by zero": "int z = 0; echo(10 % z);", "index": "int[] a = {1}; echo(a[3]);", "null": "D n = null; echo(n.id);"}
+    lives = {"end of main": "D d = new D(1); echo(\"x\");",
+             "block exit": "{ D d = new D(1); } echo(\"after\");",
+             "reassigned": "D d = new D(1); d = null; echo(\"after\");",
+             "destroy": "D d = new D(1); destroy d; echo(\"after\");",
+             "temporary": "new D(1); echo(\"after\");",
+             "argument temporary": "echo(idOf(new D(4))); echo(\"after\");",
+             "return unwinding": "echo(f()); echo(\"after\");",
+             "owner cascade": "H h0 = new H(); h0 = null; echo(\"after\");",
+             "two at once": "D a = new D(1); D b = new D(2); echo(\"x\");",
+             "loop": "for (int i = 0; i < 3; i = i + 1) { D d = new D(i); } echo(\"after\");"}
+    out = []
+    for fn, fault in faults.items():
+        for ln, life in lives.items():
+            out.append("class D { public int id; public constructor(int id) -> D { this.id = id; } public destructor() -> void { echo(\"~D\"); %s } }\n"
+                       "class H { public D inner; public constructor() -> H { this.inner = new D(9); } }\n"
+                       "function idOf(D d) -> int { return d.id; }\n"
+                       "function f() -> int { if (true) { D d = new D(2); return 5; } return 7; }\n"
+                       "function main() -> void { %s }\n" % (fault, life))
+    # a user function named like a built-in gate must be refused (or must simply work)
+    for g, ps in (("h", ""), ("x", ""), ("rx", "int a"), ("cx", "int a")):
+        out.append("function %s(%s) -> void { echo(\"mine\"); }\nfunction main() -> void { %s(%s); }\n" % (g, ps, g, "1" if ps else ""))
+    return out
+
+
 def cli_shape(chk, sources, tag):
     """run /repo's own CLI (sanitizer build): exit status 0, or 1 with one categorised diagnostic; never a signal,
     a sanitizer report or bare exception text"""
@@ -145,9 +172,10 @@ def run(chk):
         progs.append((fns, classes, src))
     recs, counts = lc.differential(chk, progs, "c12", kind="asan")
     # raw sources: no model, crash / exception shape only
-    raws = lc.run_impl(RAW, kind="asan")
+    RAWS = list(RAW) + failing_destructors()
+    raws = lc.run_impl(RAWS, kind="asan")
     nraw = {}
-    for src, c in zip(RAW, raws):
+    for src, c in zip(RAWS, raws):
         st = c.get("status")
         k = "rejected" if (st == "error" and c.get("cat") in ("Lexical", "Parse", "Semantic")) else \
             "runtime-error" if (st == "error" and c.get("cat") == "Runtime") else st
@@ -156,17 +184,19 @@ def run(chk):
             chk.report("c12-raw-%s" % st, {"source": src, "implementation": c, "how": "run /repo's bloch (sanitizer build) on the source"},
                        "edge program ends with %s %s" % (st, c.get("msg", c.get("signal", ""))))
     # the real CLI on the raw corpus, the corpus programs that end in errors, and a sample of generated ones
-    cli_src = list(RAW) + [r["src"] for r in recs[:n_corpus] if r["model"]["status"] in ("err", "undoc")][: (40 if quick else 400)]
+    cli_src = list(RAWS) + [r["src"] for r in recs[:n_corpus] if r["model"]["status"] in ("err", "undoc")][: (40 if quick else 400)]
     cli_src += [r["src"] for r in recs[n_corpus:][: (20 if quick else 300)]]
     ncli = cli_shape(chk, cli_src, "c12")
     errs = sum(1 for r in recs if r["model"]["status"] == "err" and r["verdict"] == "agree")
-    chk.cov.update({"programs": len(progs) + len(RAW), "edge_corpus_programs": n_corpus, "generated_programs": n, "raw_edge_sources": len(RAW),
+    chk.cov.update({"programs": len(progs) + len(RAWS), "edge_corpus_programs": n_corpus, "generated_programs": n, "raw_edge_sources": len(RAWS),
                     "raw_outcomes": nraw, "cli_runs": ncli, "verdicts": counts, "agreeing_runtime_errors": errs,
                     "disagreements_checked": sum(v for k, v in counts.items() if k not in ("agree", "rejected") and not k.startswith("skip")),
                     "rule": "edge corpus: every pair of extreme int/long operands (MIN, MAX, -1, 0, 1, 2^16, 2^32, sqrt MAX) under + - * / %, unary minus, "
                             "postfix, casts to int/long/float/bit, extreme read/write indices, huge floats and out-of-range conversions, empty arrays, "
                             "mismatched bit[] lengths, recursion depth 30; random type-directed programs with extreme literals; out-of-range literals, "
-                            "array sizes and annotations as raw sources.  All run on an AddressSanitizer+UBSan build through the harness and through the real CLI; "
+                            "array sizes and annotations as raw sources; a runtime error (modulo by zero, index, null) raised inside a destructor for every way an "
+                            "object can die (scope / block exit, reassignment, destroy, temporary, argument temporary, return unwinding, owner cascade, loop); "
+                            "user functions named like built-in gates.  All run on an AddressSanitizer+UBSan build through the harness and through the real CLI; "
                             "a signal, sanitizer report, non-Bloch exception or status other than 0/1 is a violation; where the reference interpreter defines "
                             "the result, output and error are compared as for C07."})
     ok = [r for r in recs if r["verdict"] == "agree"]
